@@ -8,7 +8,7 @@ from .common import VERIF
 ALL = [f"C{i:02d}" for i in range(1, 20)]
 
 DEC_NOTE = "Trusted: TLC 1.8, the TLA+ modules (Decode/Bits/Message/StdMsm/Crc24q), the syntactic table exporter and the value projection (harness/decode_rec.py); float scaling re-computed outside TLC by the identical IEEE operation. Exhaustive only within the stated small scopes; larger inputs are sampled (profiles, seeds)."
-FRM_NOTE = "Trusted: TLC 1.8, Framer.tla/Crc24q.tla, the recording proxy between reader and stream and the scripted stream/socket doubles. Streams are assumed to answer at most the requested size. Exhaustive within the MC alphabet/budget; long real streams are sampled."
+FRM_NOTE = "Trusted: TLC 1.8, Framer.tla/Crc24q.tla, the recording proxy between reader and stream and the scripted stream/socket doubles. Streams are assumed to answer at most the requested size. Exhaustive within the MC alphabet/budget; long real streams are sampled. Two-level binding: a trace rejected by FramerTrace for its read pattern alone is judged by FramerOut.tla (observables only; DESIGN 9.8)."
 
 
 def c(engine, technique, text, ref, note=None):
@@ -40,13 +40,13 @@ CHECKS = {
              "Trusted: TLC 1.8, StdLayout.tla (lengths written from RTCM 10403.3 / IGS SSR v1.00; 1022, 1024 and 1300-1305 are marked prov=tree = regression oracle only), the syntactic exporter. A same-width transposition inside a type without siblings is invisible to this property as worded."),
     "C11": c("socket", "TLA+ spec of the socket buffer (SockBuf.tla): TLC over all sources x all partitions x bufsizes x call sequences x failures + TLC-judged traces of the real SocketWrapper",
              "PrefixOK/SizeOK/TimeoutKeepsData are checked exhaustively for small sources; recorded executions over a scripted socket.socket subclass are validated event by event (every recv, return value and public buffer), segmentation independence and socket-vs-file equality are compared on the real code.", "3.2, 4/C11",
-             "Trusted: TLC 1.8, SockBuf.tla, the scripted socket double. recv() is assumed to return at most bufsize bytes."),
+             "Trusted: TLC 1.8, SockBuf.tla, the scripted socket double. recv() is assumed to return at most bufsize bytes. Two-level binding: a trace that does not fit the specification's receive pattern is judged by the envelope action of SockTrace.tla (DESIGN 9.8)."),
     "C12": c("socket", "TLC equivalence of the code-shaped chunk decoder and the RFC 9112 grammar decoder over all partitions (MC_Sock chunked) + envelope trace validation of the real wrapper for every cut position",
              "All well-formed bodies from a chunk pool x all partitions x bufsizes; on the real code every single and double cut of small bodies and random partitions of large bodies under chunked, gzip, compress and deflate: delivered ++ buffer is always a prefix of the decoded stream and contains every complete chunk.", "3.2, 4/C12",
              "Trusted: TLC 1.8, Dechunk.tla (Ref written from RFC 9112), Python zlib for the inflate dictionary. Only well-formed bodies without chunk extensions are in scope."),
     "C13": c("parallel", "TLC over all work-list pairs and interleavings of two Decode instances (Parallel.tla: TablesConst, HistoryFree) + TLC-generated schedules driving a deterministic thread scheduler on the real code; every result judged history-free by DecodeJudge",
              "Histories of up to 3 operations over 8 payload classes and three entry points run in one process with table digests after every operation; 2-4 threads follow TLC-generated schedules at function-call granularity plus a free-running stress at 1 us switch interval; every single result is judged by the specification, which knows no history.", "3.7, 4/C13",
-             "Trusted: TLC 1.8, Decode.tla, threading.settrace as yield-point mechanism. Bytecode-level pre-emption is only sampled (stress run)."),
+             "Trusted: TLC 1.8, Decode.tla, threading.settrace as yield-point mechanism (call and line granularity, systematic one-preemption schedules). Bytecode-level pre-emption is only sampled (stress run)."),
     "C14": c("message", "TLC action property Frozen on Lifecycle.tla + TLC-judged assignment histories with full snapshots",
              "The life-cycle spec is model-checked for every name and operation order; on real messages every attempted assignment must raise RTCMMessageError and the post-snapshot must equal the state the spec derives from the payload.", "3.5, 4/C14"),
     "C15": c("message", "TLC exhaustive over 4096 numbers x 256 sub-types (MC_Identity) + exhaustive header sweep on the real code judged by TLC",
@@ -74,7 +74,7 @@ ENGINES = [
          kind_free_text="TLA+ spec of the socket buffer and chunk decoder; TLC over all segmentations; TLC trace validation of the real SocketWrapper over a scripted socket"),
     dict(name="parallel", path="spec/Parallel.tla harness/parallel_run.py harness/props/c13.py",
          kind_free_text="two Decode instances with work lists and shared tables; TLC over all interleavings; TLC-generated schedules for a deterministic thread scheduler on the real code"),
-    dict(name="framer", path="spec/Framer.tla spec/MC_Framer.tla spec/FramerTrace.tla harness/framer_engine.py harness/framer_replay.py",
+    dict(name="framer", path="spec/Framer.tla spec/MC_Framer.tla spec/FramerTrace.tla spec/FramerOut.tla harness/framer_engine.py harness/framer_replay.py",
          kind_free_text="TLA+ spec of RTCMReader.read as a state machine driven by a faulty stream; TLC model checking, replay of the state graph into the real reader, TLC trace validation"),
 ]
 
